@@ -296,6 +296,11 @@ class NPShim:
         px = x * P.sym("pi")            # NumPy's normalised sinc: sin(pi x)/(pi x)
         return self.sin(px) / px
 
+    def mod(self, a, b):
+        return self.it.binop(ast.Mod(), a, b)
+
+    remainder = mod
+
     def hypot(self, a, b):
         a, b = to_obj(unwrap(a)), to_obj(unwrap(b))
         return self.sqrt(a * a + b * b)
@@ -596,11 +601,22 @@ class NPShim:
     def argmin(self, x, axis=None):
         return self.it.ask(Cond("argmin", to_obj(unwrap(x))), kind=int)
 
+    def _bound(self, a, b, kind):
+        """np.maximum(x, c) / np.minimum(x, c) with a constant bound is one half of a clip: transparent under the same assumption as np.clip"""
+        ua, ub = unwrap(a), unwrap(b)
+        if self.it.config.get("clip", "transparent") == "transparent":
+            ca = ua.const() if isinstance(ua, Rat) else (ua if isinstance(ua, (int, float, Fraction)) and not isinstance(ua, bool) else None)
+            cb = ub.const() if isinstance(ub, Rat) else (ub if isinstance(ub, (int, float, Fraction)) and not isinstance(ub, bool) else None)
+            if (ca is None) != (cb is None):
+                self.it.assume("np.%s(x, const) treated as x (value inside the clipping interval)" % kind)
+                return to_obj(ua if ca is None else ub)
+        return rat_map(lambda u, v: self.it.pick(kind[:3], u, v), ua, b)
+
     def maximum(self, a, b):
-        return rat_map(lambda u, v: self.it.pick("max", u, v), unwrap(a), b)
+        return self._bound(a, b, "maximum")
 
     def minimum(self, a, b):
-        return rat_map(lambda u, v: self.it.pick("min", u, v), unwrap(a), b)
+        return self._bound(a, b, "minimum")
 
 
 # --------------------------------------------------------------------------- interpreter
@@ -688,6 +704,7 @@ class Interp:
         self.depth = 0
         self.test_text = []
         self.func_stack = []
+        self.envs_by_func = {}
         self.np = NPShim(self)
         self.decisions = []
         self._modglobals = {}
@@ -809,6 +826,7 @@ class Interp:
             self.depth -= 1
             self.func_stack.pop()
         self.last_env = env
+        self.envs_by_func[func.ref] = env        # locals of the most recent activation of each function
         if r is not None and r[0] is _RET:
             return r[1]
         return None
